@@ -122,8 +122,11 @@ def gen_rows(rnd, n=None):
 
 SHOW = """
 Definition sz (z : Z) : string := NilZero.string_of_int (Z.to_int z).
+Definition hexd (n : nat) : string := String (Ascii.ascii_of_nat (if Nat.ltb n 10 then 48 + n else 87 + n)) EmptyString.
+Fixpoint hexs (s : string) : string :=
+  match s with EmptyString => EmptyString | String c r => let n := Ascii.nat_of_ascii c in hexd (Nat.div n 16) ++ hexd (Nat.modulo n 16) ++ hexs r end.
 Definition sv (v : val) : string :=
-  match v with VNull => "N" | VInt z => sz z | VRat a d => sz a ++ "/" ++ sz (Zpos d) | VStr s => "S" ++ s | VBool true => "T" | VBool false => "F" end.
+  match v with VNull => "N" | VInt z => sz z | VRat a d => sz a ++ "/" ++ sz (Zpos d) | VStr s => "S" ++ hexs s | VBool true => "T" | VBool false => "F" end.
 Definition sr (r : result) : string := match r with RVal v => sv v | RBag _ vs => "{" ++ String.concat " " (map sv vs) ++ "}" end.
 Definition show (rows : list (list val * list result)) : string :=
   String.concat ";" (map (fun '(k, rs) => String.concat "," (map sv k) ++ "|" ++ String.concat "," (map sr rs)) rows).
@@ -145,7 +148,7 @@ def parse_val(x):
     if x == "F":
         return False
     if x.startswith("S"):
-        return x[1:]
+        return bytes.fromhex(x[1:]).decode("utf8")
     if "/" in x:
         a, b = x.split("/")
         return Fraction(int(a), int(b))
